@@ -23,7 +23,10 @@ def fast_loads(text, include_position=False, include_comments=False):
     _calls += 1
     if _calls % MODULE_API_EVERY == 0:
         # a share of all calls goes through the public module-level entry point (whatever it caches or shares)
-        import mappyfile
+        import mappyfile, re
+        if not re.search(r"(?im)^\s*include", text):
+            # no INCLUDE line: the default call (include expansion on) must give the same result
+            return mappyfile.loads(text, include_position=include_position, include_comments=include_comments)
         return mappyfile.loads(text, expand_includes=False, include_position=include_position, include_comments=include_comments)
     key = (include_position, include_comments)
     if key not in _workers:
